@@ -61,6 +61,7 @@ def make_state(it, clsname, with_module=None):
             mv.inst.origin = "attr:" + net
             havoc_params(it, mv, net)
     n0 = len(it.effects)
+    it.ctor_effects = list(it.effects)  # what the constructor did (C20 looks at it); later rules start from a clean log
     del it.effects[:]
     del it.calls[:]
     del it.ext_calls[:]
